@@ -602,8 +602,13 @@ F_C08_step(cfg, pre, post) ==
              LET s == post.steps[a]
                  nxt == {b \in (a+1)..Len(post.steps) : post.steps[b].k \in {"attach", "start", "choose", "accept"}
                                                           /\ post.steps[b].n = s.n}
+                 \* (an interrupted customer that gets a server back is restarted without a new choice, also after a
+                 \*  choice that found no free server earlier in the same event)
+                 resumedAt(b) == (IsLive(pre, post.steps[b].i) /\ CuOf(pre, post.steps[b].i).intr
+                                    /\ CuOf(pre, post.steps[b].i).loc = s.n)
+                                 \/ \E c \in 1..(b-1) : post.steps[c].k = "interrupt" /\ post.steps[c].i = post.steps[b].i
              IN nxt # {} /\ post.steps[SetMin(nxt)].k \in {"attach", "start"}
-                => post.steps[SetMin(nxt)].i = s.i)
+                => post.steps[SetMin(nxt)].i = s.i \/ resumedAt(SetMin(nxt)))
        \cup Chk("C08.every-queue-start-was-chosen", \A a \in IdxOf(post, "attach") :
              \* a server is attached only to the customer last returned by choose_next_customer at that node,
              \* or to a customer whose priority just rose by a class change while waiting and who pre-empts
